@@ -29,7 +29,7 @@ PID = "C04"
 LEVEL = "proof"
 LEAN = ["SaVerif.Props.C04"]
 META = {
-    "text": "Lean theorems over ALL statements (any number/order of text, bind and post-compile segments, any names/values): under the NoPattern guard the regex scan of _process_positional recovers exactly the bind segments in order (positional_alignment), _process_numeric numbers every placeholder with the index of its own name in positiontup (numeric_alignment), expanding-IN expansion keeps every later placeholder aligned (expanding_alignment), and each style delivers to every placeholder the value of the bind it stands for (delivery theorems); the guard is shown necessary by proved counterexamples (F2 identifier `%(id)s`; escaped-name collision). The model is tied to compiler.py/default.py by a translator (templates, regex sources, escape table) and by differential runs: scanner vs CPython re, compiled.string/positiontup and cursor-level (statement, parameters) vs model on SQLite for all six paramstyles. The property itself is checked on the real code by two independent oracles (placeholder substitution vs literal_binds rendering on 16 dialect/driver configurations; row equality across the six paramstyles on SQLite).",
+    "text": "Lean theorems over ALL statements (any number/order of text, bind and post-compile segments, any names/values): under the NoPattern guard the regex scan of _process_positional recovers exactly the bind segments in order (positional_alignment), _process_numeric numbers every placeholder with the index of its own name in positiontup (numeric_alignment), expanding-IN expansion keeps every later placeholder aligned (expanding_alignment: loop-invariant proof over _process_parameters_for_postcompile for qmark/format under the NoClash freshness guard), and each style delivers to every placeholder the value of the bind it stands for (delivery theorems); the guard is shown necessary by proved counterexamples (F2 identifier `%(id)s`; escaped-name collision). The model is tied to compiler.py/default.py by a translator (templates, regex sources, escape table) and by differential runs: scanner vs CPython re, compiled.string/positiontup and cursor-level (statement, parameters) vs model on SQLite for all six paramstyles. The property itself is checked on the real code by two independent oracles (placeholder substitution vs literal_binds rendering on 16 dialect/driver configurations; row equality across the six paramstyles on SQLite).",
     "note": "Trusted: Lean kernel; CPython re semantics (modelled as scanners, differential-tested each run); PEP 249 placeholder grammar of non-SQLite drivers (never connected; format/pyformat are executed on SQLite through a `stmt % params` emulation); literal rendering of ints/strings (C05); tuple-valued expanding parameters, bind processors and insertmanyvalues batch rewriting are outside the Lean model (covered by the row oracle only). Known findings: literal_execute parameter whose name needs escaping raises KeyError; two names escaping to the same string are bound to one value (named/pyformat) or assert (positional); identifier matching %(name)s is rewritten (F2).",
     "technique": "Lean 4 induction over segment lists for regex-scanner round trips + refinement of the positional/numeric/post-compile pipeline; regenerated tables; differential correspondence; independent substitution/row oracles",
     "design_ref": "DESIGN.md §3 C04",
@@ -463,6 +463,10 @@ def check_spec(ctx, env, sp, corr, fakes=True, record=True):
             corr["cases"].append({"spec": sp, "style": style, "what": "stage1"})
             corr["impl"].append(impl_stage1(compiled, style))
             corr["req"].append("bind stage1 " + head)
+            if style in ("qmark", "numeric"):
+                pre_s = getattr(compiled, "_verif_pre", None)
+                if pre_s is not None:
+                    corr["guard"].append("bind safe %s %s" % ("both" if style == "qmark" else "a", E(pre_s)))
             if not many and len(caps) == 1 and pv is not None:
                 corr["cases"].append({"spec": sp, "style": style, "what": "run"})
                 corr["impl"].append(impl_run(caps[0][0], caps[0][1]) if r["status"] == "ok" else r["status"])
@@ -572,7 +576,7 @@ def run(ctx, deep=False):
     scanner_correspondence(ctx, 60000 if thorough else 8000)
     env = Env()
     ctx.count("fake-dialects-available", len(env.fakes))
-    corr = {"cases": [], "impl": [], "req": []} if ctx.driver_ok() else None
+    corr = {"cases": [], "impl": [], "req": [], "guard": []} if ctx.driver_ok() else None
     n = 8000 if thorough else 400
     for i in range(n):
         cfg = {"weird_p": ctx.rng.choice([0.0, 0.5, 0.9]), "le_p": ctx.rng.choice([0.0, 0.12, 0.3]), "avoid_known": True}
@@ -589,6 +593,10 @@ def run(ctx, deep=False):
         out = ctx.driver(corr["req"])
         ctx.correspond("corr/c04:compiler+default-vs-Model.Bind", corr["cases"], corr["impl"], out)
         ctx.count("model-lines", len(out))
+        if corr["guard"]:
+            g = ctx.driver(corr["guard"])
+            ctx.count("theorem-guard-holds-on-real-pre-string", sum(1 for x in g if x == "safe"))
+            ctx.count("theorem-guard-fails-on-real-pre-string", sum(1 for x in g if x != "safe"))
     ctx.exhaustive = False
 
 
